@@ -96,7 +96,7 @@ type l2Hub struct {
 	fired     int
 	crashed   bool
 	onCrash   func()
-	hook      func(rec *StmtRec) // called (without the lock) before a statement executes: tier T parking
+	hook      func(ctx context.Context, rec *StmtRec) error // called (without the lock) before a statement executes: tier T parking; a non-nil error fails the statement
 	conns     int
 }
 
@@ -174,7 +174,7 @@ func classify(q string) (StmtKind, string) {
 }
 
 // before is called for every statement. It returns the error to inject, or nil.
-func (h *l2Hub) before(conn *l2Conn, kind StmtKind, text string) error {
+func (h *l2Hub) before(ctx context.Context, conn *l2Conn, kind StmtKind, text string) error {
 	_, table := classify(text)
 	h.mu.Lock()
 	h.seq++
@@ -219,7 +219,10 @@ func (h *l2Hub) before(conn *l2Conn, kind StmtKind, text string) error {
 	hook := h.hook
 	h.mu.Unlock()
 	if err == nil && hook != nil {
-		hook(&rec)
+		if ctx == nil {
+			ctx = context.Background()
+		}
+		err = hook(ctx, &rec)
 	}
 	return err
 }
@@ -266,7 +269,7 @@ func (c *l2Conn) Begin() (driver.Tx, error) {
 func (c *l2Conn) Ping(ctx context.Context) error { return c.inner.Ping(ctx) }
 
 func (c *l2Conn) BeginTx(ctx context.Context, opts driver.TxOptions) (driver.Tx, error) {
-	if err := c.hub.before(c, StmtBegin, "BEGIN"); err != nil {
+	if err := c.hub.before(ctx, c, StmtBegin, "BEGIN"); err != nil {
 		return nil, err
 	}
 	tx, err := c.inner.BeginTx(ctx, opts)
@@ -288,7 +291,7 @@ func (c *l2Conn) PrepareContext(ctx context.Context, q string) (driver.Stmt, err
 
 func (c *l2Conn) ExecContext(ctx context.Context, q string, args []driver.NamedValue) (driver.Result, error) {
 	k, _ := classify(q)
-	if err := c.hub.before(c, k, q); err != nil {
+	if err := c.hub.before(ctx, c, k, q); err != nil {
 		return nil, err
 	}
 	return c.inner.ExecContext(ctx, q, args)
@@ -296,7 +299,7 @@ func (c *l2Conn) ExecContext(ctx context.Context, q string, args []driver.NamedV
 
 func (c *l2Conn) QueryContext(ctx context.Context, q string, args []driver.NamedValue) (driver.Rows, error) {
 	k, _ := classify(q)
-	if err := c.hub.before(c, k, q); err != nil {
+	if err := c.hub.before(ctx, c, k, q); err != nil {
 		return nil, err
 	}
 	return c.inner.QueryContext(ctx, q, args)
@@ -308,7 +311,7 @@ type l2Tx struct {
 }
 
 func (t *l2Tx) Commit() error {
-	if err := t.c.hub.before(t.c, StmtCommit, "COMMIT"); err != nil {
+	if err := t.c.hub.before(nil, t.c, StmtCommit, "COMMIT"); err != nil {
 		// fail-stop: nothing is committed; the inner transaction is rolled back so
 		// that the connection is reusable, as a database that refused the COMMIT
 		// would leave it
@@ -321,7 +324,7 @@ func (t *l2Tx) Commit() error {
 }
 
 func (t *l2Tx) Rollback() error {
-	err := t.c.hub.before(t.c, StmtRollback, "ROLLBACK")
+	err := t.c.hub.before(nil, t.c, StmtRollback, "ROLLBACK")
 	t.c.inTx = false
 	// a rollback is always carried out on the real connection, whatever the
 	// caller is told
@@ -342,25 +345,25 @@ type l2Stmt struct {
 func (s *l2Stmt) Close() error  { return s.inner.Close() }
 func (s *l2Stmt) NumInput() int { return s.inner.NumInput() }
 func (s *l2Stmt) Exec(args []driver.Value) (driver.Result, error) {
-	if err := s.c.hub.before(s.c, s.kind, s.text); err != nil {
+	if err := s.c.hub.before(nil, s.c, s.kind, s.text); err != nil {
 		return nil, err
 	}
 	return s.inner.Exec(args)
 }
 func (s *l2Stmt) Query(args []driver.Value) (driver.Rows, error) {
-	if err := s.c.hub.before(s.c, s.kind, s.text); err != nil {
+	if err := s.c.hub.before(nil, s.c, s.kind, s.text); err != nil {
 		return nil, err
 	}
 	return s.inner.Query(args)
 }
 func (s *l2Stmt) ExecContext(ctx context.Context, args []driver.NamedValue) (driver.Result, error) {
-	if err := s.c.hub.before(s.c, s.kind, s.text); err != nil {
+	if err := s.c.hub.before(ctx, s.c, s.kind, s.text); err != nil {
 		return nil, err
 	}
 	return s.inner.ExecContext(ctx, args)
 }
 func (s *l2Stmt) QueryContext(ctx context.Context, args []driver.NamedValue) (driver.Rows, error) {
-	if err := s.c.hub.before(s.c, s.kind, s.text); err != nil {
+	if err := s.c.hub.before(ctx, s.c, s.kind, s.text); err != nil {
 		return nil, err
 	}
 	return s.inner.QueryContext(ctx, args)
